@@ -831,7 +831,10 @@ input::
                 if t is None:
                     t = cn.impose_at(*to.select_params(self,collapses[k]))
                 else:
-                    t = cn.impose_at(collapses[k],t)
+                    index = tuple(collapses[k])
+                    if hasattr(t, '__len__'): #NOTE: target per parameter
+                        t = [t[i] for i in index]
+                    t = cn.impose_at(index,t)
                 conditions.append(t)
             elif k.startswith('CollapseAs'):
                 t = state[k]
